@@ -4,7 +4,7 @@ use crate::util::*;
 use e57::verif::{PagedReader, PagedWriter};
 use std::io::{Read, Write};
 
-fn dev_tok(d: &SimDev) -> String {
+pub fn dev_tok(d: &SimDev) -> String {
     let data = d.data();
     let mut h: u64 = 0xcbf29ce484222325;
     for b in &data {
